@@ -23,7 +23,7 @@ Class(line, bad) ==
    ELSE IF c.shape = "wholefile" /\ c.pos = "comp" /\ c.kind \in {"headers", "responses"}
            /\ bad \subseteq {"validates_iff_original", "resolves_to_same_content", "reloads_without_external_refs"}
         THEN "wholefile_component_self_reference"
-   (* F-C16-6 (= F-C02-5 seen from here): a local pointer BELOW a header component loads from a file only through the loader's raw   *)
+   (* F-C16-6 (= F-C02-5 seen from here; repaired, f4a43a7): a local pointer BELOW a header component loads from a file only through the loader's raw   *)
    (*          re-read of the root; the internalised document, loaded from memory, meets the typed walk alone and fails to load      *)
    ELSE IF bad = {"reloads_without_external_refs"} /\ c.u.use.ref.path = <<>> /\ c.u.use.ref.frag # <<>>
            /\ c.u.use.ref.frag[1] = "#compinl" /\ c.u.use.ref.frag[2] = "headers"
